@@ -458,6 +458,7 @@ func brun(args []string) error {
 	cw.Flush()
 	cf.Close()
 	casesASGiB = 24
+	casesDeadline = "60s"                                // multi-GiB buffers requested and zeroed: 5-15 s of CPU per input when the machine is busy
 	outcomes := runCases(casesPath, len(kinds), *dir, 3) // hostile lengths make the converter request multi-GiB buffers: few workers at a time
 	tr := wl.NewTrace()
 	tr.Add(wl.Ev{"ev": "Run", "id": "bagcases", "cfg": map[string]any{"external": "cases"}, "lib": wl.Blob(""), "csizes": []any{}})
